@@ -272,6 +272,16 @@ def kw_apart(R, f, cfg, calls, k, prefix):
                 lead = lead.left
             if isinstance(lead, ast.Tuple) and lead.elts and isinstance(lead.elts[0], ast.Name) and lead.elts[0].id in sentinels:
                 sent_locals.add(st.targets[0].id)
+    # (a local that is only ever given such a local, or the empty tuple, carries the sentinel as well: `extra = extra_pairs`)
+    grew = True
+    while grew:
+        grew = False
+        for nm_ in set(st.targets[0].id for st in q.scope_nodes(f.node) if isinstance(st, ast.Assign) and len(st.targets) == 1 and isinstance(st.targets[0], ast.Name)) - sent_locals:
+            vals_ = [v_ for k_, v_ in common.assigned_values(f.node, nm_)]
+            if vals_ and all((isinstance(v_, ast.Name) and v_.id in sent_locals) or (isinstance(v_, ast.Tuple) and not v_.elts) for v_ in vals_) \
+                    and any(isinstance(v_, ast.Name) for v_ in vals_):
+                sent_locals.add(nm_)
+                grew = True
     rets = [nn for nn in q.scope_nodes(f.node) if isinstance(nn, ast.Return) and nn.value is not None]
     bad = [r for r in rets if not (q.names_loaded(r.value) & (sent_locals | sentinels))]
     # (sentinel-carrying locals may be bound to () on the no-surplus path: that is the point)
@@ -607,7 +617,27 @@ def run(R):
     R.check(bool(ic) and all(k_ == "expr" and sub_ok(v_) for k_, v_ in ic) and any(q.src(v_) == "cache[instance_key][1]" for k_, v_ in ic), "C13.INSTANCE", nf.qualname + ":sub", R.site(nf),
             "each instance has its own dict", "instances do not get their own dict")
     refs = [c for c in q.calls(nf.node) if q.call_name(c) == "weakref.ref"]
-    okw = len(refs) == 1 and q.src(refs[0].args[0]) == "self" and len(refs[0].args) == 2 and q.src(refs[0].args[1]) == "functools.partial(clear_cache, instance_key)"
+    # the callback: a callable bound to the instance's key - functools.partial(F, instance_key), or the closure a nested factory
+    # G(instance_key) returns (`def G(k): def inner(ref): ...; return inner`)
+    cb_fn, cb_key = None, None           # (function that runs when the instance dies, the name its body knows the key by)
+    if len(refs) == 1 and len(refs[0].args) == 2 and isinstance(refs[0].args[1], ast.Call):
+        cbx = refs[0].args[1]
+        nested_ = dict(cf.nested)
+        nested_.update(nf.nested)
+        if q.call_name(cbx) in ("functools.partial", "partial") and len(cbx.args) == 2 and isinstance(cbx.args[0], ast.Name) and q.src(cbx.args[1]) == "instance_key" \
+                and cbx.args[0].id in nested_ and not cbx.keywords:
+            cb_fn = nested_[cbx.args[0].id]
+            cb_key = (q.param_names(cb_fn.node) or [None])[0]
+        elif isinstance(cbx.func, ast.Name) and cbx.func.id in nested_ and [q.src(a) for a in cbx.args] == ["instance_key"] and not cbx.keywords:
+            fac = nested_[cbx.func.id]
+            body_ = [b for b in fac.node.body if not (isinstance(b, ast.Expr) and isinstance(b.value, ast.Constant))]
+            if len(body_) == 2 and isinstance(body_[0], ast.FunctionDef) and isinstance(body_[1], ast.Return) and q.src(body_[1].value) == body_[0].name \
+                    and len(q.param_names(fac.node)) == 1 and body_[0].name in fac.nested:
+                cb_fn = fac.nested[body_[0].name]
+                cb_key = q.param_names(fac.node)[0]
+                if cb_key in q.param_names(cb_fn.node) or any(isinstance(y, ast.Name) and y.id == cb_key and isinstance(y.ctx, ast.Store) for y in ast.walk(cb_fn.node)):
+                    cb_fn = None
+    okw = len(refs) == 1 and q.src(refs[0].args[0]) == "self" and cb_fn is not None
     R.check(okw, "C13.INSTANCE", nf.qualname + ":weakref", R.site(nf),
             "a weak reference to the instance is registered with a callback bound to its key", "no weakref callback bound to the instance's key is registered")
     # ... and every entry that is created holds that weak reference: an entry made without one (instances that cannot be weakly
@@ -622,10 +652,10 @@ def run(R):
                 "an entry can be created without a weak reference to its instance (%s): it outlives the instance, and since the key is id(self), a new "
                 "instance allocated at the same address is answered from the dead instance's cache"
                 % ", ".join(sorted(set(q.src(x)[:30] if x is not None else "?" for x in srcs if not (isinstance(x, ast.Call) and q.call_name(x) == "weakref.ref")))))
-    cc = cf.nested.get("clear_cache")
-    R.need(cc is not None, "anchor vanished: clear_cache")
+    cc = cb_fn
+    R.need(cc is not None, "anchor vanished: the weakref callback of acached_per_instance")
     dels = [n for n in ast.walk(cc.node) if isinstance(n, ast.Delete)]
-    okd = len(dels) == 1 and q.src(dels[0].targets[0]) == "cache[%s]" % q.param_names(cc.node)[0]
+    okd = len(dels) == 1 and q.src(dels[0].targets[0]) == "cache[%s]" % cb_key
     R.check(okd, "C13.INSTANCE", cc.qualname, R.site(cc), "the callback deletes exactly the dead instance's entry", "the weakref callback does not delete exactly the dead instance's entry")
     # the (ref, {}) entry is created only when missing
     cfg = cfg_of(nf)
